@@ -908,11 +908,17 @@ def op_svals(h):
     if L < 2:
         return None
     i = int(rng.integers(1, L))
-    fn = str(rng.choice(["singular_values", "schmidt_values", "entropy", "schmidt_gap"]))
+    fn = str(rng.choice(["singular_values", "schmidt_values", "entropy", "schmidt_gap", "bipartite_schmidt_state"]))
     method = str(rng.choice(["svd", "svd", "svd:eig", "default"]))
     mode, kw = h.rec_kwargs(legacy_ok=True)
     opts = {} if method == "default" else {"method": method}
+    get = str(rng.choice(["default", "ket", "ket-dense", "rho-dense"]))
+    if fn == "bipartite_schmidt_state":
+        method = "default"
+        opts = {} if get == "default" else {"get": get}
     params = dict(op=fn, i=i, method=method, rec=mode, precision="single" if h.single else "double")
+    if fn == "bipartite_schmidt_state":
+        params["get"] = get
 
     def run():
         psi = h.psi
@@ -924,6 +930,37 @@ def op_svals(h):
         vt = h.tol * 10
 
         def value():
+            if fn == "bipartite_schmidt_state":
+                # the state in its Schmidt basis: diag(s) as a (chi, chi) matrix (tensor 'kA','kB'), a column vector, or
+                # the projector onto it
+                if get in ("default", "ket"):
+                    if tuple(got.inds) != ("kA", "kB"):
+                        return f"labels {got.inds}"
+                    M = _up(got.data)
+                elif get == "ket-dense":
+                    v = _up(np.asarray(got))
+                    n = int(round(np.sqrt(v.size)))
+                    if v.shape != (n * n, 1):
+                        return f"shape {v.shape}"
+                    M = v.reshape(n, n)
+                else:
+                    R = _up(np.asarray(got))
+                    n = int(round(np.sqrt(R.shape[0])))
+                    if R.shape != (n * n, n * n):
+                        return f"shape {R.shape}"
+                    w, V = np.linalg.eigh(R)
+                    if np.abs(w[:-1]).max(initial=0.0) > vt:
+                        return "rho-dense is not a rank-one projector"
+                    M = (V[:, -1] * np.sqrt(abs(w[-1]))).reshape(n, n)
+                    M = M * np.exp(-1j * np.angle(M[0, 0])) if abs(M[0, 0]) > 0 else M
+                if M.ndim != 2 or M.shape[0] != M.shape[1]:
+                    return f"shape {M.shape}"
+                if np.abs(M - np.diag(np.diag(M))).max(initial=0.0) > vt:
+                    return "not diagonal in the Schmidt basis"
+                g = np.sort(np.abs(np.diag(M)))[::-1]
+                n = max(len(g), len(s))
+                return close(np.concatenate([g, np.zeros(n - len(g))]), np.concatenate([s, np.zeros(n - len(s))]), vt,
+                             "Schmidt coefficients")
             if fn in ("singular_values", "schmidt_values"):
                 g = np.sort(np.abs(np.asarray(got, dtype=float).ravel()))[::-1]
                 if np.ndim(got) != 1:
